@@ -307,7 +307,17 @@ func ExecCoop(plan *CoopPlan, rc *RunCtx) *Violation {
 		}
 	}
 	r.noteApplied(n0, r.views[0])
-	// selectors never share an output
+	// selectors never share an output - unless an admitted transaction of the batch spent it in between:
+	// the node cannot tell who built a transaction, an admitted spend consumes the selection, and when
+	// that transaction is rolled back (a played block conflicts with it) the output is free again
+	consumed := map[string]bool{}
+	for i, p := range prep {
+		if p.tx != nil && outcomes[i] == "admitted" {
+			for _, in := range p.tx.TxInputs {
+				consumed[utxoKey(in.FromAddr, in.RefTxid, in.RefOffset)] = true
+			}
+		}
+	}
 	seen := map[string]int{}
 	for i, o := range outcomes {
 		if !strings.HasPrefix(o, "select:") || o == "select:err" {
@@ -315,7 +325,9 @@ func ExecCoop(plan *CoopPlan, rc *RunCtx) *Violation {
 		}
 		parts := strings.SplitN(o, ":", 3)
 		for _, k := range strings.Split(parts[2], ",") {
-			if j, dup := seen[k]; dup {
+			if j, dup := seen[k]; dup && consumed[k] {
+				rc.St.Probes["selection-consumed-then-freed-by-rollback"]++
+			} else if dup {
 				return r.viol("output-selected-twice", "locking selectors #%d and #%d were both handed output %s (trace %s)", j, i, shortKey(k), coop.Trace())
 			}
 			seen[k] = i
@@ -424,6 +436,12 @@ func ExecCoop(plan *CoopPlan, rc *RunCtx) *Violation {
 			if prep[i].req.Kind != "select" || os.Getenv("XSIM_C12_REEXEC_SELECT") != "" {
 				ro[i] = execReq(ref, prep[i])
 				rc.RunBG()
+				if ro[i] == "admitted" && prep[i].tx != nil {
+					// an admitted spend consumes the selections of its inputs
+					for _, in := range prep[i].tx.TxInputs {
+						delete(handedOut, utxoKey(in.FromAddr, in.RefTxid, in.RefOffset))
+					}
+				}
 				continue
 			}
 			us, _ := ref.ListUtxos(prep[i].addr)
